@@ -7,7 +7,7 @@ LEVEL = 'proof'
 EXPLANATION = ('A task starts only after its dependencies are final and published: contracts on decide_new_state / decide_new_state_waiting / _enqueue (loop invariant: every task put in the queue is PENDING with all dependencies final) and on one iteration of WorkerThread.run (trace of atomic Env actions: update and clocks applied before the status is published), generated from the real AST; an Owicki-Gries invariant over those contracts (sched_og.py) is discharged by z3 for every action of master and workers, for any number of workers. The Env methods themselves are assumed contracts (structural lock obligations + exhaustive single-entry conformance); a settrace preemption sweep and a native scheduler sweep run as labelled bounded stand-ins.')
 ASSUMPTIONS = su.ASSUMPTIONS
 TRUSTED = su.TRUSTED
-UNITS = 'decide decide_waiting last_end_time enqueue worker master schedule scheduler_init og independence env_locks merge_done dg_add_node dg_add_dependency dg_remove_node dg_flatten dg_histories env_conformance native_park native_sweep'.split()
+UNITS = 'decide decide_waiting last_end_time enqueue worker master schedule scheduler_init backend_init og independence env_locks merge_done dg_add_node dg_add_dependency dg_remove_node dg_flatten dg_histories env_conformance native_park native_sweep'.split()
 
 
 def units(tier):
